@@ -735,8 +735,13 @@ def execute_c03(scenario: Dict) -> Dict:
             if qi in evaluated_before:
                 nontrivial = True
             evaluated_before.add(qi)
-            pseudo = Task(-1 - qi, qi, None)
+            # an atomic evaluation is an evaluation too: it overlaps every task that is suspended right now
+            pseudo = Task(-1 - len([t for t in tasks if t < 0]), qi, None)
+            pseudo.state = "done"
             pseudo.overlaps = {t.tid for t in live_tasks()}
+            tasks[pseudo.tid] = pseudo
+            for t in live_tasks():
+                t.overlaps.add(pseudo.tid)
             for o in live_tasks():
                 if SHARE_RANK[sharing_between(scenario, qi, o.qi)] >= 2:
                     nontrivial = True
@@ -757,7 +762,8 @@ def execute_c03(scenario: Dict) -> Dict:
             if not ref.get("unreliable") and ref["end"] not in ("fuse", "cap"):
                 if (got, end) != (ref["results"], ref["end"]):
                     f = {
-                        "task": None,
+                        "task": pseudo.tid,
+                        "shared_node_overlap": any(query_shared_ids(scenario["queries"][qi]) & query_shared_ids(scenario["queries"][tasks[o].qi]) for o in pseudo.overlaps),
                         "query": qi,
                         "rule_query": False,
                         "overlap": bool(pseudo.overlaps),
